@@ -110,113 +110,3 @@ pub(crate) fn c14_slice_convert<S: Shape>() {
     std::mem::forget(searcher);
 }
 
-fn run_reader<S: Shape>(searcher: &Searcher, matcher: &PlainMatcher, det: crate::line_buffer::BinaryDetection, frag: usize, sink: &mut RecSink) -> bool {
-    let (cap, chunk) = FRAGS[frag];
-    let mut lb = LineBufferBuilder::new()
-        .capacity(cap)
-        .line_terminator(term_of::<S>().as_byte())
-        .binary_detection(det)
-        .build();
-    let r = {
-        let fr = FragReader { hay: S::HAY, pos: 0, calls: 0, chunk: [chunk; MAXREADS], err_at: usize::MAX, err_interrupted: false };
-        let rdr = LineBufferReader::new(fr, &mut lb);
-        ReadByLine::new(searcher, matcher, rdr, sink).run()
-    };
-    std::mem::forget(lb);
-    r.is_ok()
-}
-
-/// Quit detection, reader strategy: the search is cut off at (or, depending on
-/// buffering, some whole lines before) the first NUL: what is delivered is a
-/// PREFIX of the search of the input cut at the first NUL, no NUL ever reaches
-/// the sink, exactly one binary notice carries the first NUL's offset, finish
-/// reports it and a byte count that does not exceed it.
-pub(crate) fn c14_reader_quit_tiny<S: Shape>() {
-    c14_reader_quit::<S>(0)
-}
-pub(crate) fn c14_reader_quit_wide<S: Shape>() {
-    c14_reader_quit::<S>(2)
-}
-
-fn c14_reader_quit<S: Shape>(frag: usize) {
-    let cfg = c14_cfg();
-    let hit = any_hits::<S>();
-    let matcher = PlainMatcher::new::<S>(hit);
-    let searcher = searcher_with::<S>(&cfg, crate::searcher::BinaryDetection::quit(0));
-    let f = first_nul::<S>();
-    let upto = if f == usize::MAX { S::HAY.len() } else { f };
-    let (want, _ck) = model_events_upto::<S>(&hit, &cfg, upto);
-    let mut fr = frag;
-    while fr < frag + 1 {
-        let mut sink = RecSink::new(S::HAY);
-        let ok = run_reader::<S>(&searcher, &matcher, crate::line_buffer::BinaryDetection::Quit(0), fr, &mut sink);
-        assert!(ok, "search returns Ok");
-        assert!(!sink.saw_nul, "no NUL byte is delivered in quit mode");
-        let (mut rest, _at, cnt, off) = strip_binary(&sink, evcap::<S>() + 1);
-        if f == usize::MAX {
-            assert!(cnt == 0, "no NUL, no binary notice");
-            assert_log_is_model(&rest, &want, true, evcap::<S>());
-        } else {
-            assert!(cnt == 1, "exactly one binary notice");
-            assert!(off == f as u64, "binary notice carries the first NUL's offset");
-            assert!(rest.n >= 2 && rest.n <= want.n, "no more is delivered than the search of the input before the first NUL");
-            let fin = rest.ev[rest.n - 1];
-            assert!(fin.kind == K_FINISH, "completion is signalled");
-            assert!(fin.aux == f as u64 + 1, "finish reports the binary offset");
-            assert!(fin.off <= f as u64, "bytes searched do not exceed the first NUL's offset");
-            // everything before the finish is a prefix of the model stream
-            rest.n -= 1;
-            assert_prefix::<S>(&rest, &want, rest.n - 1);
-            let mut i = 0;
-            while i < evcap::<S>() {
-                if i < rest.n {
-                    assert!(want.ev[i].kind != K_FINISH, "a prefix of the line events");
-                }
-                i += 1;
-            }
-        }
-        fr += 1;
-    }
-    kani::cover!(true, "reach-end");
-    std::mem::forget(searcher);
-}
-
-/// Convert detection, reader strategy: the search behaves exactly as a search
-/// of the input with every NUL replaced by the terminator (shape T), plus one
-/// binary notice at the first NUL's offset.
-pub(crate) fn c14_reader_convert_tiny<S: Shape, T: Shape>() {
-    c14_reader_convert::<S, T>(0)
-}
-pub(crate) fn c14_reader_convert_mid<S: Shape, T: Shape>() {
-    c14_reader_convert::<S, T>(1)
-}
-
-fn c14_reader_convert<S: Shape, T: Shape>(frag: usize) {
-    let cfg = c14_cfg();
-    let hit = any_hits::<T>();
-    let matcher = PlainMatcher::new::<T>(hit);
-    let searcher = searcher_with::<S>(&cfg, crate::searcher::BinaryDetection::convert(0));
-    let f = first_nul::<S>();
-    let (want, _ck) = model_events::<T>(&hit, &cfg);
-    let mut fr = frag;
-    while fr < frag + 1 {
-        // delivered bytes are compared with the CONVERTED input
-        let mut sink = RecSink::new(T::HAY);
-        let ok = run_reader::<S>(&searcher, &matcher, crate::line_buffer::BinaryDetection::Convert(0), fr, &mut sink);
-        assert!(ok, "search returns Ok");
-        assert!(!sink.saw_nul, "no NUL byte is delivered by the reader strategy in convert mode");
-        let (mut rest, _at, cnt, off) = strip_binary(&sink, evcap::<T>() + 1);
-        if f == usize::MAX {
-            assert!(cnt == 0, "no NUL, no binary notice");
-        } else {
-            assert!(cnt == 1, "exactly one binary notice");
-            assert!(off == f as u64, "binary notice carries the first NUL's offset");
-            assert!(rest.ev[rest.n - 1].aux == f as u64 + 1, "finish reports the binary offset");
-            rest.ev[rest.n - 1].aux = 0;
-        }
-        assert_log_is_model(&rest, &want, true, evcap::<T>());
-        fr += 1;
-    }
-    kani::cover!(true, "reach-end");
-    std::mem::forget(searcher);
-}
